@@ -54,6 +54,7 @@ struct Block {
 	int op_index = -1, req_ord = 0, owner_class = 0;
 	const char *op_name = "";
 	bool arena = false;
+	int zone = 0;              // 0: run zone (wiped after every run), 1: model zone (persistent)
 	bool reused = false;
 	std::vector<uint8_t> prot;  // per page, library view (mmap kinds) / RW for heap
 	std::vector<int8_t> hprot;  // per page harness override (-1 = none)
@@ -61,13 +62,17 @@ struct Block {
 
 // constructed in process_init(): librx.so's static initialisers allocate before ours would have run
 static std::map<uintptr_t, Block> *g_blocks_p = nullptr;  // key: page_lo (arena) or user pointer
-static std::map<std::pair<size_t, int>, std::vector<uintptr_t>> *g_freelist_p = nullptr; // (npages, is_mmap) -> freed page_lo (LIFO)
+static std::map<std::pair<size_t, int>, std::vector<uintptr_t>> *g_freelist_p = nullptr; // (npages, is_mmap + 2*zone) -> freed page_lo (LIFO)
 #define g_blocks (*g_blocks_p)
 #define g_freelist (*g_freelist_p)
 static bool g_ready = false;
 static uintptr_t g_arena = 0;
-static size_t g_bump = 0;      // pages handed out since run_begin
-static size_t g_high = 0;      // high-water mark of touched pages (for reset)
+// The arena has two zones. Zone 0 serves the simulated history and is wiped after every run, so every run
+// starts from the same address layout. Zone 1 serves the reference-model computations (fresh objects that
+// outlive a run); it gives them the same guard pages, so a model computation that runs off a block faults
+// deterministically instead of corrupting the real heap.
+struct Zone { size_t first_page; size_t max_pages; size_t bump; size_t high; };
+static Zone g_zone[2];
 static uint64_t g_heap_seed = 0;
 static uint64_t g_alloc_counter = 0;
 static Ledger g_ledger;
@@ -141,10 +146,11 @@ std::string describe_addr(const void *p) {
 	bool guard = false;
 	Block *b = find_containing(a, &guard);
 	if (!b) {
-		if (kArena && a >= g_arena && a < g_arena + ARENA_BYTES) return "arena_unallocated";
+		if (kArena && a >= g_arena && a < g_arena + ARENA_BYTES) return a >= g_arena + g_zone[1].first_page * PG ? "model_arena_unallocated" : "arena_unallocated";
 		return "foreign";
 	}
 	std::string own = owner_of(*b);
+	if (b->zone == 1) own = "model:" + own;
 	if (guard) return "guard_after owner=" + own;
 	if (b->state == ST_FREED) return "freed owner=" + own;
 	if (a < b->user) return "slack_before owner=" + own;
@@ -154,7 +160,7 @@ std::string describe_addr(const void *p) {
 std::vector<std::string> live_owners(int op_index) {
 	InSeam g;
 	std::vector<std::string> v;
-	for (auto &kv : g_blocks) if (kv.second.state == ST_LIVE && (op_index < 0 || kv.second.op_index == op_index)) v.push_back(owner_of(kv.second));
+	for (auto &kv : g_blocks) if (kv.second.state == ST_LIVE && kv.second.zone == 0 && (op_index < 0 || kv.second.op_index == op_index)) v.push_back(owner_of(kv.second));
 	std::sort(v.begin(), v.end());
 	v.erase(std::unique(v.begin(), v.end()), v.end());
 	return v;
@@ -176,7 +182,8 @@ static void arena_protect(uintptr_t lo, size_t npages, int prot) {
 	if (mprotect((void *)lo, npages * PG, prot) != 0) { fprintf(stderr, "rxsim: arena mprotect failed: %s\n", strerror(errno)); abort(); }
 }
 
-static Block *arena_alloc(size_t size, size_t align, int kind, OpCtx *ctx, bool zeroed) {
+static Block *arena_alloc(size_t size, size_t align, int kind, OpCtx *ctx, bool zeroed, int zone = 0) {
+	Zone &Z = g_zone[zone];
 	bool is_mmap = (kind == RQ_MMAP || kind == RQ_MMAP_HUGE);
 	if (align < 16) align = 16;
 	size_t span = is_mmap ? size : ((size + align - 1) / align) * align;
@@ -186,7 +193,8 @@ static Block *arena_alloc(size_t size, size_t align, int kind, OpCtx *ctx, bool 
 	bool want_reuse = (ctx->heap_policy & (big ? HP_REUSE_BIG : HP_REUSE_SMALL)) != 0;
 	uintptr_t lo = 0;
 	bool reused = false;
-	auto key = std::make_pair(npages, (int)is_mmap);
+	auto key = std::make_pair(npages, (int)is_mmap + 2 * zone);
+	if (zone == 1) want_reuse = true;
 	if (want_reuse) {
 		auto it = g_freelist.find(key);
 		if (it != g_freelist.end() && !it->second.empty()) {
@@ -196,25 +204,26 @@ static Block *arena_alloc(size_t size, size_t align, int kind, OpCtx *ctx, bool 
 		}
 	}
 	if (!lo) {
-		if ((g_bump + npages + 2) * PG > ARENA_BYTES) return nullptr;
-		lo = g_arena + (g_bump + 1) * PG; // one guard page before the very first block too
-		g_bump += npages + 1;
-		if (g_bump > g_high) g_high = g_bump;
+		if (Z.bump + npages + 2 > Z.max_pages) return nullptr;
+		lo = g_arena + (Z.first_page + Z.bump + 1) * PG; // one guard page before the very first block too
+		Z.bump += npages + 1;
+		if (Z.bump > Z.high) Z.high = Z.bump;
 	}
-	(big ? (reused ? g_stats.reuse_big : g_stats.fresh_big) : (reused ? g_stats.reuse_small : g_stats.fresh_small))++;
+	if (zone == 0) (big ? (reused ? g_stats.reuse_big : g_stats.fresh_big) : (reused ? g_stats.reuse_small : g_stats.fresh_small))++;
 	arena_protect(lo, npages, PROT_READ | PROT_WRITE);
 	Block b;
-	b.arena = true; b.page_lo = lo; b.npages = npages; b.size = size; b.kind = kind; b.state = ST_LIVE; b.reused = reused;
+	b.arena = true; b.zone = zone; b.page_lo = lo; b.npages = npages; b.size = size; b.kind = kind; b.state = ST_LIVE; b.reused = reused;
 	b.op_index = ctx->op_index; b.req_ord = ctx->requests; b.op_name = ctx->op_name; b.owner_class = ctx->owner_class;
 	b.user = is_mmap ? lo : lo + npages * PG - span;
 	b.prot.assign(npages, PROT_READ | PROT_WRITE);
 	b.hprot.assign(npages, -1);
-	uint64_t nseed = rt::mix64(g_heap_seed, ++g_alloc_counter);
+	uint64_t nseed = rt::mix64(zone == 1 ? ctx->noise_seed : g_heap_seed, ++g_alloc_counter);
 	if (is_mmap || zeroed) {
 		// the kernel hands out zero pages: a reused mapping was dropped with MADV_DONTNEED when it was unmapped
 		// (arena_free), so it reads as zero again without touching it here
 	} else {
 		bool stale = reused && (ctx->heap_policy & HP_STALE);
+		if (stale && zone == 1) stale = false;
 		if (stale) ++g_stats.stale;
 		else {
 			size_t total = npages * PG;
@@ -241,7 +250,7 @@ static void arena_free(Block &b) {
 	if (is_mmap || b.npages * PG >= DROP_ON_FREE) madvise((void *)b.page_lo, b.npages * PG, MADV_DONTNEED);
 	arena_protect(b.page_lo, b.npages, PROT_NONE);
 	b.state = ST_FREED;
-	g_freelist[std::make_pair(b.npages, (int)is_mmap)].push_back(b.page_lo);
+	g_freelist[std::make_pair(b.npages, (int)is_mmap + 2 * b.zone)].push_back(b.page_lo);
 }
 
 // ------------------------------------------------------------------ request handling
@@ -285,6 +294,21 @@ static void model_noise(OpCtx *ctx, void *p, size_t size) {
 	if (p && size) fill_noise(p, size, rt::mix64(ctx->noise_seed, ++g_alloc_counter));
 }
 
+// allocation on behalf of a reference-model computation: guard-paged block in the model zone (object-level
+// blocks) or the real allocator (tiny blocks), noise-filled, never logged, never faulted
+static void *model_alloc(OpCtx *ctx, size_t size, size_t align, int kind) {
+	if (kArena && size >= OBJ_BLOCK) {
+		Block *b = arena_alloc(size, align, kind, ctx, false, 1);
+		if (!b) { fprintf(stderr, "rxsim: model arena exhausted\n"); abort(); }
+		return (void *)b->user;
+	}
+	void *p = nullptr;
+	if (kind == RQ_MEMALIGN) { if (posix_memalign(&p, align < sizeof(void *) ? sizeof(void *) : align, size) != 0) p = nullptr; }
+	else p = malloc(size ? size : 1);
+	model_noise(ctx, p, size);
+	return p;
+}
+
 // true if handled
 static bool lib_free(void *p) {
 	if (!p) return true;
@@ -302,6 +326,7 @@ static bool lib_free(void *p) {
 	if (!b) return false;
 	if (b->kind == RQ_MMAP || b->kind == RQ_MMAP_HUGE) { anomaly("BAD_FREE", "free_of_mapping owner=" + owner_of(*b)); return true; }
 	if (b->state == ST_FREED) { anomaly("DOUBLE_FREE", "owner=" + owner_of(*b)); return true; }
+	if (b->arena && b->zone == 1) { arena_free(*b); return true; } // reference-model object: no ledger, no log
 	OpCtx *ctx = t_ctx;
 	if (ctx) ++ctx->frees;
 	++g_stats.frees;
@@ -333,7 +358,20 @@ void process_init() {
 		void *p = mmap(nullptr, ARENA_BYTES, PROT_NONE, MAP_PRIVATE | MAP_ANONYMOUS | MAP_NORESERVE, -1, 0);
 		if (p == MAP_FAILED) { fprintf(stderr, "rxsim: cannot reserve arena: %s\n", strerror(errno)); abort(); }
 		g_arena = (uintptr_t)p;
+		size_t pages = ARENA_BYTES / PG;
+		g_zone[0] = Zone{0, pages / 4 * 3, 0, 0};
+		g_zone[1] = Zone{pages / 4 * 3, pages / 4, 0, 0};
 	}
+}
+
+static void wipe_run_zone() {
+	for (auto it = g_blocks.begin(); it != g_blocks.end();) {
+		if (it->second.arena && it->second.zone == 1) ++it; else it = g_blocks.erase(it);
+	}
+	for (auto it = g_freelist.begin(); it != g_freelist.end();) {
+		if (it->first.second >= 2) ++it; else it = g_freelist.erase(it);
+	}
+	g_zone[0].bump = 0;
 }
 
 void run_begin(uint64_t heap_seed) {
@@ -343,23 +381,19 @@ void run_begin(uint64_t heap_seed) {
 	g_ledger = Ledger();
 	g_anomalies.clear();
 	g_stats = SeamStats();
-	g_blocks.clear();
-	g_freelist.clear();
-	g_bump = 0;
+	wipe_run_zone();
 }
 
 void run_end() {
 	InSeam g;
 	// tiny / tsan blocks still live are leaked on purpose (they belong to a finished run and the ledger
 	// has reported them); the arena is wiped.
-	if (kArena && g_high) {
-		madvise((void *)g_arena, (g_high + 2) * PG, MADV_DONTNEED);
-		arena_protect(g_arena, g_high + 2, PROT_NONE);
-		g_high = 0;
+	if (kArena && g_zone[0].high) {
+		madvise((void *)g_arena, (g_zone[0].high + 2) * PG, MADV_DONTNEED);
+		arena_protect(g_arena, g_zone[0].high + 2, PROT_NONE);
+		g_zone[0].high = 0;
 	}
-	g_blocks.clear();
-	g_freelist.clear();
-	g_bump = 0;
+	wipe_run_zone();
 }
 
 void guard_range(void *p, size_t len, int prot) {
@@ -473,7 +507,7 @@ static void *seam_new(size_t n) {
 	OpCtx *ctx = t_ctx;
 	if (!ctx || t_in_seam) return malloc(n ? n : 1);
 	InSeam g;
-	if (ctx->model_mode) { void *p = malloc(n ? n : 1); model_noise(ctx, p, n); return p; }
+	if (ctx->model_mode) return model_alloc(ctx, n, 16, RQ_NEW);
 	return lib_alloc(ctx, n, 16, RQ_NEW);
 }
 static void seam_delete(void *p) {
@@ -493,7 +527,7 @@ extern "C" int __wrap_posix_memalign(void **out, size_t align, size_t size) {
 	OpCtx *ctx = t_ctx;
 	if (!ctx || t_in_seam) return posix_memalign(out, align, size);
 	InSeam g;
-	if (ctx->model_mode) { int r = posix_memalign(out, align, size); if (r == 0) model_noise(ctx, *out, size); return r; }
+	if (ctx->model_mode) { void *p = model_alloc(ctx, size, align, RQ_MEMALIGN); if (!p) return ENOMEM; *out = p; return 0; }
 	void *p = lib_alloc(ctx, size, align, RQ_MEMALIGN);
 	if (!p) return ENOMEM;
 	*out = p;
@@ -513,7 +547,14 @@ extern "C" void *__wrap_mmap(void *addr, size_t len, int prot, int flags, int fd
 	InSeam g;
 	int kind = (flags & MAP_HUGETLB) ? RQ_MMAP_HUGE : RQ_MMAP;
 	int rflags = flags & ~(MAP_HUGETLB | MAP_POPULATE); // huge-page pool is a stub: served from ordinary pages
-	if (ctx->model_mode) return mmap(addr, len, prot, rflags, fd, off);
+	if (ctx->model_mode) {
+		if (!kArena) return mmap(addr, len, prot, rflags, fd, off);
+		Block *mb = arena_alloc(len, PG, kind, ctx, true, 1);
+		if (!mb) { fprintf(stderr, "rxsim: model arena exhausted\n"); abort(); }
+		if (prot != (PROT_READ | PROT_WRITE)) arena_protect(mb->page_lo, mb->npages, prot);
+		for (auto &x : mb->prot) x = (uint8_t)prot;
+		return (void *)mb->user;
+	}
 	++ctx->requests;
 	++g_stats.requests[kind];
 	bool fail = should_fail(ctx, kind);
@@ -551,7 +592,11 @@ extern "C" int __wrap_munmap(void *addr, size_t len) {
 	OpCtx *ctx = t_ctx;
 	if (!ctx || t_in_seam) return munmap(addr, len);
 	InSeam g;
-	if (ctx->model_mode) return munmap(addr, len);
+	if (ctx->model_mode) {
+		Block *mb = kArena ? find_containing((uintptr_t)addr, nullptr) : nullptr;
+		if (mb && mb->arena && mb->zone == 1 && mb->state == ST_LIVE && mb->user == (uintptr_t)addr) { arena_free(*mb); return 0; }
+		return munmap(addr, len);
+	}
 	++g_stats.munmaps;
 	Block *b = find_containing((uintptr_t)addr, nullptr);
 	rt::g_log.ev("munmap", ctx->task, ctx->op_index, (uint64_t)len, b ? 1 : 0);
@@ -586,7 +631,12 @@ extern "C" int __wrap_mprotect(void *addr, size_t len, int prot) {
 	OpCtx *ctx = t_ctx;
 	if (!ctx || t_in_seam) return mprotect(addr, len, prot);
 	InSeam g;
-	if (ctx->model_mode) return mprotect(addr, len, prot);
+	if (ctx->model_mode) {
+		int r = mprotect(addr, len, prot);
+		Block *mb = kArena ? find_containing((uintptr_t)addr, nullptr) : nullptr;
+		if (r == 0 && mb && mb->arena && mb->zone == 1) for (auto &x : mb->prot) x = (uint8_t)prot;
+		return r;
+	}
 	++g_stats.mprotects;
 	Block *b = find_containing((uintptr_t)addr, nullptr);
 	rt::g_log.ev("mprotect", ctx->task, ctx->op_index, (uint64_t)len, (uint64_t)prot, b ? 1 : 0);
